@@ -16,6 +16,7 @@ import OnlVerif.Net.TwoRateOnKReplay
 import OnlVerif.Net.RROnKReplay
 import OnlVerif.Net.WRROnKReplay
 import OnlVerif.Tcp.SenderOnKReplay
+import OnlVerif.Net.VCOnKReplay
 /-! Line-protocol driver: `driver <mode>` reads cases on stdin and prints the model's observations. -/
 
 def main (args : List String) : IO UInt32 := do
@@ -40,4 +41,5 @@ def main (args : List String) : IO UInt32 := do
   | ["rrk"] => rrkLoop stdin; return 0
   | ["wrrk"] => wrrkLoop stdin; return 0
   | ["sndk"] => sndkLoop stdin; return 0
+  | ["vck"] => vckLoop stdin; return 0
   | _ => IO.eprintln "usage: driver <kernel|fifo|gensink|timer|rt|…>"; return 2
